@@ -20,7 +20,7 @@ claim("C02",
 
 claim("C04",
   "metamorphic property testing (two generated presentations of one set must give bit-identical sketches) + targeted collision generator",
-  "Exploration: 1.6e5 (quick) / 3e6 (thorough) generated (sketcher kind among 12, size, SetSketch parameters, set, two presentations with repetitions / permutation / chunking / slice vs item-wise) cases compared bit for bit over all views; stored hashes are checked against the independently recomputed hasher values; a second generator observes per-item values through the public API, finds items with equal value in one bin and presents them in both orders (this is what exposed the f32 tie defect, now fixed).",
+  "Exploration: 1.6e5 (quick) / 1.2e6 (thorough) generated (sketcher kind among 17, size, SetSketch parameters, set, two presentations with repetitions / permutation / chunking / slice vs item-wise) cases compared bit for bit over all views; stored hashes are checked against the independently recomputed hasher values; a second generator observes per-item values through the public API, finds items with equal value in one bin and presents them in both orders (this is what exposed the f32 tie defect, now fixed).",
   "SetSketch event counters (get_low_sketch, get_nb_overflow) are not part of the sketch. Targeted sub-checks: dens-equal-r, tie-hunt (2^18 / 2^20 items sorted by the sketcher's own comparison), distinct-items (structured labels incl. the no-op hasher), long-streams (up to 140 000 calls, sizes up to 110 000).",
   "DESIGN.md 5/C04")
 
